@@ -17,6 +17,7 @@ func emit(v interface{}) {
 	}
 	out.Write(b)
 	out.WriteByte('\n')
+	out.Flush() // a crash of the code under test must not lose what was already observed
 }
 
 func main() {
